@@ -493,3 +493,64 @@ mut('C07', 'options-from-other-pr-text', GWF,
 eq(['C07'], 'inline-flags', GWF,
    "        privileged = author in admins and author != pr_author\n        authored = author == pr_author\n        text = comment.text\n        try:\n            reactor.handle_options(job, text, prefix, privileged, authored)",
    "        text = comment.text\n        try:\n            reactor.handle_options(job, text, prefix,\n                                   author != pr_author and author in admins,\n                                   pr_author == author)")
+
+# ------------------------------------------------------------------- C10
+mut('C10', 'defaults-not-copied', REACTOR,
+    "            job.settings[key] = copy(option.default)",
+    "            job.settings[key] = option.default")
+mut('C10', 'command-returns', COMMANDS,
+    "    raise ResetComplete(couldnt_decline=error_prs,\n                        active_options=job.active_options)",
+    "    LOG = None\n    return error_prs")
+mut('C10', 'command-silent', COMMANDS,
+    "    raise StatusReport(status={}, active_options=job.active_options)",
+    "    from bert_e.exceptions import NothingToDo\n    raise NothingToDo()")
+mut('C10', 'shield-removed', GWF,
+    "        if author == job.settings.robot:\n            return\n        privileged",
+    "        privileged")
+mut('C10', 'shield-continue', GWF,
+    "        if author == job.settings.robot:\n            return\n        privileged",
+    "        if author == job.settings.robot:\n            continue\n        privileged")
+mut('C10', 'commands-oldest-first', GWF,
+    "    for comment in reversed(job.pull_request.comments):",
+    "    for comment in job.pull_request.comments:")
+mut('C10', 'direct-comment', QUEUE,
+    "        notify_user(\n            job.settings, pull_request, exceptions.QueueBuildFailedMessage(\n                active_options=job.active_options,\n                frontend_url=job.bert_e.settings.frontend_url)\n        )",
+    "        pull_request.add_comment(str(exceptions.QueueBuildFailedMessage(\n                active_options=job.active_options,\n                frontend_url=job.bert_e.settings.frontend_url)))")
+mut('C10', 'queued-repeatable', EXC,
+    "    template = 'queued.md'\n    status = \"in_progress\"",
+    "    template = 'queued.md'\n    status = \"in_progress\"\n    dont_repeat_if_in_history = 0")
+mut('C10', 'default-policy-zero', EXC,
+    "    # whether to re-publish if the message is already in the history\n    dont_repeat_if_in_history = -1",
+    "    # whether to re-publish if the message is already in the history\n    dont_repeat_if_in_history = 0")
+mut('C10', 'dedup-skipped', PRUTILS,
+    "        if find_comment(pull_request, settings.robot, msg,\n                        dont_repeat_if_in_history):\n            raise exceptions.CommentAlreadyExists(",
+    "        if settings.interactive and find_comment(pull_request, settings.robot, msg,\n                        dont_repeat_if_in_history):\n            raise exceptions.CommentAlreadyExists(")
+mut('C10', 'dedup-wrong-user', PRUTILS,
+    "        if find_comment(pull_request, settings.robot, msg,",
+    "        if find_comment(pull_request, pull_request.author, msg,")
+mut('C10', 'find-comment-skips-different', PRUTILS,
+    "            if max_history == -1:\n                return\n            continue",
+    "            continue")
+mut('C10', 'find-comment-oldest-first', PRUTILS,
+    "    comments = reversed(pull_request.comments)", "    comments = iter(pull_request.comments)")
+mut('C10', 'cascade-cache-global', BRANCHES,
+    "def build_branch_cascade(job):\n    \"\"\"Initialize the job's branch cascade.\"\"\"\n    cascade = job.git.cascade\n",
+    "_CASCADES = {}\n\n\ndef build_branch_cascade(job):\n    \"\"\"Initialize the job's branch cascade.\"\"\"\n    cascade = _CASCADES.setdefault(job.git.dst_branch.name, job.git.cascade)\n    job.git.cascade = cascade\n")
+mut('C10', 'cascade-on-berte', BRANCHES,
+    "    cascade.build(job.git.repo, job.git.dst_branch)\n    LOG.debug(cascade.dst_branches)",
+    "    cascade.build(job.git.repo, job.git.dst_branch)\n    job.bert_e.last_cascade = cascade\n    LOG.debug(cascade.dst_branches)")
+mut('C10', 'no-reset-before-dispatch', BERTE,
+    "        self.git_repo.reset()\n        try:\n            return self.dispatch(job)",
+    "        try:\n            return self.dispatch(job)")
+mut('C10', 'reset-keeps-caches', GIT,
+    "        self.cmd_directory = self.tmp_directory\n        self._remote_heads = defaultdict(set)\n        self._remote_branches = dict()\n\n    def delete",
+    "        self.cmd_directory = self.tmp_directory\n\n    def delete")
+mut('C10', 'init-settings-after-options', GWF,
+    "    reactor.init_settings(job)\n\n    prefix = '@{}'.format(job.settings.robot)",
+    "    prefix = '@{}'.format(job.settings.robot)")
+mut('C10', 'memoised-build-status', GITHUB,
+    "    def get_build_status(self, revision: str, key: str) -> str:\n        status = cache",
+    "    @lru_cache()\n    def get_build_status(self, revision: str, key: str) -> str:\n        status = cache")
+mut('C10', 'wrong-policy-forwarded', PRUTILS,
+    "        _send_comment(settings, pull_request, str(comment),\n                      comment.dont_repeat_if_in_history)",
+    "        _send_comment(settings, pull_request, str(comment), 0)")
